@@ -8,6 +8,7 @@ import NumqiModel.Decision
 import Mathlib.Tactic
 import Mathlib.Analysis.SpecialFunctions.BinaryEntropy
 import Mathlib.Analysis.SpecialFunctions.Sqrt
+import Mathlib.Algebra.BigOperators.Fin
 
 namespace Numqi.C13
 open Numqi Numqi.Ent Numqi.Ent.Thresholds Real
@@ -165,6 +166,221 @@ theorem eof_eq_binEntropy_one_sub_gme {c : ℝ} (h0 : 0 ≤ c) (h1 : c ≤ 1) :
   simp only [eofT, gme2qubit, SqrtLog.sqrt, sqrtArg_of_mem _ h0 h1]
   ring
 
+/-! ### eigenvalue read-outs: pure states and Bell-diagonal states -/
+
+private theorem pyMax0_eq_max (x : ℝ) : pyMax0 x = max 0 x := by
+  unfold pyMax0; split_ifs with h
+  · exact (max_eq_right h.le).symm
+  · exact (max_eq_left (not_lt.1 h)).symm
+
+/-- **Wootters read-out on a spectrum `(a², b², c², d²)` with `0 ≤ a,b,c ≤ d`**: `max(0, d − a − b − c)` -/
+theorem woottersReadout_sq {a b c d : ℝ} (ha : 0 ≤ a) (hb : 0 ≤ b) (hc : 0 ≤ c) (hd : 0 ≤ d) :
+    woottersReadout [a ^ 2, b ^ 2, c ^ 2, d ^ 2] = max 0 (2 * d - (a + b + c + d)) := by
+  simp only [woottersReadout, List.map_cons, List.map_nil, List.getLastD_cons, List.getLastD_nil, List.foldl_cons, List.foldl_nil,
+    pyMax0_eq_max, SqrtLog.sqrt, max_eq_right (sq_nonneg _), Real.sqrt_sq ha, Real.sqrt_sq hb, Real.sqrt_sq hc, Real.sqrt_sq hd]
+  congr 1; ring
+
+/-- **pure states**: the spectrum `(0,0,0,t)` (theorem `concurrenceArg_pure`: `t = (2|det ψ|)²`) reads out as `√t = 2|det ψ|`,
+which is `get_concurrence_pure` (theorem `concPureRadicand_two_qubit`) -/
+theorem woottersReadout_pure {t : ℝ} (ht : 0 ≤ t) : woottersReadout [0, 0, 0, t] = Real.sqrt t := by
+  have := woottersReadout_sq (le_refl 0) (le_refl 0) (le_refl 0) (Real.sqrt_nonneg t)
+  simp only [Real.sq_sqrt ht, ne_eq, OfNat.ofNat_ne_zero, not_false_eq_true, zero_pow] at this
+  rw [this]
+  have := Real.sqrt_nonneg t
+  rw [max_eq_right] <;> linarith
+
+/-- **Bell-diagonal states**: spectrum `(p_i²)`, weights summing to 1, `d` the largest: concurrence `max(0, 2 p_max − 1)` -/
+theorem woottersReadout_bellDiag {a b c d : ℝ} (ha : 0 ≤ a) (hb : 0 ≤ b) (hc : 0 ≤ c) (hd : 0 ≤ d) (hs : a + b + c + d = 1) :
+    woottersReadout [a ^ 2, b ^ 2, c ^ 2, d ^ 2] = max 0 (2 * d - 1) := by
+  rw [woottersReadout_sq ha hb hc hd, hs]
+
+/-- **non-zero exactly when NPT, on the Bell-diagonal family**: the concurrence `max(0, 2p_max−1)` is positive iff some weight
+exceeds ½, i.e. (theorem `C05.bellDiag_ppt_iff`) iff the partial transpose is not positive semidefinite -/
+theorem bellDiag_concurrence_pos_iff {a b c d : ℝ} (hda : a ≤ d) (hdb : b ≤ d) (hdc : c ≤ d) :
+    0 < max 0 (2 * d - 1) ↔ ¬ (a ≤ 1 / 2 ∧ b ≤ 1 / 2 ∧ c ≤ 1 / 2 ∧ d ≤ 1 / 2) := by
+  constructor
+  · intro h ⟨_, _, _, h4⟩
+    rw [max_eq_left (by linarith)] at h; exact lt_irrefl _ h
+  · intro h
+    have : 1 / 2 < d := by
+      by_contra hn
+      exact h ⟨by linarith, by linarith, by linarith, by linarith⟩
+    exact lt_max_of_lt_right (by linarith)
+
+/-- Schmidt weights of a normalised two-qubit pure state: `l₁ + l₂ = 1`, `l₁ l₂ = D = |det ψ|²` (theorem `schmidt_trace_det`),
+`l₂ ≤ l₁` ⇒ `l₁ = (1+√(1−4D))/2` -/
+theorem schmidt_weight_max {l1 l2 D : ℝ} (h1 : l1 + l2 = 1) (hD : l1 * l2 = D) (hle : l2 ≤ l1) :
+    l1 = (1 + Real.sqrt (1 - 4 * D)) / 2 := by
+  have h : 1 - 4 * D = (l1 - l2) ^ 2 := by rw [← hD]; nlinarith
+  rw [h, Real.sqrt_sq (by linarith)]; linarith
+
+/-- **`get_eof_pure` = `get_eof_2qubit` on pure states**: the entropy of the Schmidt weights is the closed form at `c = 2|det ψ|` -/
+theorem eof_pure_eq {l1 l2 D : ℝ} (h1 : l1 + l2 = 1) (hD : l1 * l2 = D) (hle : l2 ≤ l1) (h2 : 0 ≤ l2) :
+    Real.negMulLog l1 + Real.negMulLog l2 = eof2qubit (2 * Real.sqrt D) := by
+  have hD0 : 0 ≤ D := by rw [← hD]; nlinarith
+  have hD4 : D ≤ 1 / 4 := by rw [← hD]; nlinarith [sq_nonneg (l1 - l2)]
+  have hc0 : 0 ≤ 2 * Real.sqrt D := by positivity
+  have hc1 : 2 * Real.sqrt D ≤ 1 := by
+    have : Real.sqrt D ≤ Real.sqrt (1 / 4) := Real.sqrt_le_sqrt hD4
+    have e : Real.sqrt (1 / 4) = 1 / 2 := by
+      rw [show (1 / 4 : ℝ) = (1 / 2) ^ 2 by norm_num, Real.sqrt_sq (by norm_num)]
+    linarith
+  rw [eof_eq_binEntropy, Real.binEntropy_eq_negMulLog_add_negMulLog_one_sub]
+  have ht : eofT (2 * Real.sqrt D) = l1 := by
+    simp only [eofT, SqrtLog.sqrt]
+    rw [show sqrtArg eofClampSqrtArg (2 * Real.sqrt D) = 1 - 4 * D by
+      simp only [sqrtArg, eofClampSqrtArg, if_true, pyMax0_eq_max]
+      have : 2 * Real.sqrt D * (2 * Real.sqrt D) = 4 * D := by nlinarith [Real.mul_self_sqrt hD0]
+      rw [this, max_eq_right (by linarith)]]
+    exact (schmidt_weight_max h1 hD hle).symm
+  rw [ht, show 1 - l1 = l2 by linarith]
+
+/-- **GME of a pure state** `1 − l₁` (one minus the largest Schmidt weight) is `get_gme_2qubit` at `c = 2|det ψ|` -/
+theorem gme_pure_eq {l1 l2 D : ℝ} (h1 : l1 + l2 = 1) (hD : l1 * l2 = D) (hle : l2 ≤ l1) (h2 : 0 ≤ l2) :
+    1 - l1 = gme2qubit (2 * Real.sqrt D) := by
+  have hD0 : 0 ≤ D := by rw [← hD]; nlinarith
+  have hD4 : D ≤ 1 / 4 := by rw [← hD]; nlinarith [sq_nonneg (l1 - l2)]
+  simp only [gme2qubit, SqrtLog.sqrt]
+  rw [show sqrtArg gmeClampSqrtArg (2 * Real.sqrt D) = 1 - 4 * D by
+    simp only [sqrtArg, gmeClampSqrtArg, if_true, pyMax0_eq_max]
+    have : 2 * Real.sqrt D * (2 * Real.sqrt D) = 4 * D := by nlinarith [Real.mul_self_sqrt hD0]
+    rw [this, max_eq_right (by linarith)]]
+  rw [schmidt_weight_max h1 hD hle]; ring
+
+/-- `get_eof_pure`'s read-out drops weights `≤ eps` and sums `-x log x` over the rest -/
+theorem eofPureFromWeights_two {eps l1 l2 : ℝ} (h1 : eps < l1) (h2 : eps < l2) :
+    eofPureFromWeights eps [l2, l1] = Real.negMulLog l1 + Real.negMulLog l2 := by
+  simp [eofPureFromWeights, h1, h2, SqrtLog.log, Real.negMulLog]
+
+
+/-! ### the four losses as convex combinations of member values -/
+
+private theorem foldl_add_eq {β : Type} (f : β → ℝ) (l : List β) (a : ℝ) :
+    l.foldl (fun acc m => acc + f m) a = a + (l.map f).sum := by
+  induction l generalizing a with
+  | nil => simp
+  | cons x l ih => simp [ih, add_assoc]
+
+private theorem sum_map_sub {β : Type} (f g : β → ℝ) (l : List β) :
+    (l.map f).sum - (l.map g).sum = (l.map fun m => f m - g m).sum := by
+  induction l with
+  | nil => simp
+  | cons x l ih => simp only [List.map_cons, List.sum_cons]; linarith
+
+theorem concLoss_eq_sum (eps : ℝ) (l : List (ℝ × ℝ)) : concLoss eps l = (l.map (concMember eps)).sum := by
+  simp [concLoss, foldl_add_eq]
+
+theorem eofLoss_eq_sum (eps : ℝ) (l : List (ℝ × List ℝ)) : eofLoss eps l = (l.map (eofMember eps)).sum := by
+  simp [eofLoss, foldl_add_eq]
+
+theorem linentLoss_eq_sum (eps sign : ℝ) (l : List (ℝ × ℝ)) :
+    linentLoss eps sign l = sign * (1 - (l.map fun m => m.2 / clampBelow eps m.1).sum) := by
+  simp [linentLoss, foldl_add_eq]
+
+theorem gmeLoss_eq_sum (l : List (ℝ × ℝ)) : gmeLoss l = 1 - (l.map fun z => z.1 * z.1 + z.2 * z.2).sum := by
+  simp [gmeLoss, foldl_add_eq]
+
+/-- a sum of member values `v_α ∈ [0, p_α·c]` with weights summing to 1 lies in `[0, c]` -/
+theorem members_range {β : Type} (l : List β) (v w : β → ℝ) (c : ℝ) (h : ∀ m ∈ l, 0 ≤ v m ∧ v m ≤ w m * c)
+    (hw : (l.map w).sum = 1) : 0 ≤ (l.map v).sum ∧ (l.map v).sum ≤ c := by
+  have key : 0 ≤ (l.map v).sum ∧ (l.map v).sum ≤ (l.map w).sum * c := by
+    clear hw
+    induction l with
+    | nil => simp
+    | cons x l ih =>
+      have hx := h x (by simp)
+      have := ih fun m hm => h m (List.mem_cons_of_mem _ hm)
+      simp only [List.map_cons, List.sum_cons]
+      constructor
+      · linarith [this.1, hx.1]
+      · nlinarith [this.2, hx.2]
+  rw [hw, one_mul] at key
+  exact key
+
+/-- **one member of the concurrence loss** (`d` = dimension of the reduced state): with `p²/d ≤ purity ≤ p²`
+(theorems `gram_purity_le/ge`) its value lies in `[0, p·√(2(1−1/d))]` — for two qubits in `[0, p]` -/
+theorem concMember_range {eps p pur : ℝ} {d : ℕ} (hd : 1 ≤ d) (hp : 0 ≤ p) (_h1 : pur ≤ p * p) (h2 : p * p ≤ d * pur)
+    (he : eps ≤ 2 * (p * p) * (1 - 1 / d)) :
+    0 ≤ concMember eps (p, pur) ∧ concMember eps (p, pur) ≤ p * Real.sqrt (2 * (1 - 1 / d)) := by
+  have hd' : (0 : ℝ) < d := by exact_mod_cast hd
+  refine ⟨Real.sqrt_nonneg _, ?_⟩
+  have hx : 2 * (p * p - pur) ≤ 2 * (p * p) * (1 - 1 / d) := by
+    have : p * p / d ≤ pur := by rw [div_le_iff₀ hd']; linarith
+    have e : 2 * (p * p) * (1 - 1 / (d : ℝ)) = 2 * (p * p - p * p / d) := by field_simp
+    rw [e]; linarith
+  have hc : clampBelow eps (2 * (p * p - pur)) ≤ 2 * (p * p) * (1 - 1 / d) := by
+    unfold clampBelow; split_ifs <;> assumption
+  calc concMember eps (p, pur) ≤ Real.sqrt (2 * (p * p) * (1 - 1 / d)) := Real.sqrt_le_sqrt hc
+    _ = p * Real.sqrt (2 * (1 - 1 / d)) := by
+        rw [show 2 * (p * p) * (1 - 1 / (d : ℝ)) = p ^ 2 * (2 * (1 - 1 / d)) by ring, Real.sqrt_mul (sq_nonneg p), Real.sqrt_sq hp]
+
+/-- **one member of the linear-entropy loss**: `p − purity/p ∈ [0, p(1−1/d)]` -/
+theorem linentMember_range {eps p pur : ℝ} {d : ℕ} (hd : 1 ≤ d) (hp : 0 < p) (he : eps ≤ p) (h1 : pur ≤ p * p) (h2 : p * p ≤ d * pur) :
+    0 ≤ p - pur / clampBelow eps p ∧ p - pur / clampBelow eps p ≤ p * (1 - 1 / d) := by
+  have hd' : (0 : ℝ) < d := by exact_mod_cast hd
+  have hc : clampBelow eps p = p := by
+    unfold clampBelow; split_ifs with h
+    · rfl
+    · linarith [not_lt.1 h]
+  rw [hc]
+  constructor
+  · rw [sub_nonneg, div_le_iff₀ hp]; exact h1
+  · have : p / d ≤ pur / p := by rw [div_le_div_iff₀ hd' hp]; linarith
+    have e : p * (1 - 1 / (d : ℝ)) = p - p / d := by field_simp
+    rw [e]; linarith
+
+/-- **one member of the EOF loss** for a spectrum `λ ≥ 0`, `Σλ = p`, every non-zero value above the clamp `eps`:
+the member is `p log p − Σ λ log λ ∈ [0, p log d]` (theorem `member_entropy_range` in `NumqiProps/C13.lean`) -/
+theorem eofMember_eq {eps p : ℝ} {d : ℕ} (lam : Fin d → ℝ) (_he : 0 < eps) (hp : p = 0 ∨ eps < p) (hl : ∀ i, lam i = 0 ∨ eps < lam i) :
+    eofMember eps (p, List.ofFn lam) = p * Real.log p - ∑ i, lam i * Real.log (lam i) := by
+  have hx : ∀ x : ℝ, (x = 0 ∨ eps < x) → clampXLogX eps x = x * Real.log x := by
+    intro x hx
+    unfold clampXLogX clampBelow
+    rcases hx with rfl | h
+    · simp
+    · simp [h, SqrtLog.log]
+  simp only [eofMember, foldl_add_eq, zero_add, hx p hp, List.map_ofFn, List.sum_ofFn, Function.comp]
+  congr 1
+  exact Finset.sum_congr rfl fun i _ => hx _ (hl i)
+
+/-- **the concurrence loss is a convex combination of member values in range** (two qubits: `loss ∈ [0,1]`) -/
+theorem concLoss_range (eps : ℝ) (l : List (ℝ × ℝ)) (d : ℕ) (hd : 1 ≤ d)
+    (h : ∀ m ∈ l, 0 ≤ m.1 ∧ m.2 ≤ m.1 * m.1 ∧ m.1 * m.1 ≤ d * m.2 ∧ eps ≤ 2 * (m.1 * m.1) * (1 - 1 / d))
+    (hw : (l.map Prod.fst).sum = 1) :
+    0 ≤ concLoss eps l ∧ concLoss eps l ≤ Real.sqrt (2 * (1 - 1 / d)) := by
+  rw [concLoss_eq_sum]
+  exact members_range l (concMember eps) Prod.fst _ (fun m hm => by
+    obtain ⟨a, b, c, e⟩ := h m hm
+    exact concMember_range hd a b c e) hw
+
+/-- **the linear-entropy loss (`kind='convex'`) is a convex combination of member values in `[0, p(1−1/d)]`** -/
+theorem linentLoss_range (eps : ℝ) (l : List (ℝ × ℝ)) (d : ℕ) (hd : 1 ≤ d)
+    (h : ∀ m ∈ l, 0 < m.1 ∧ eps ≤ m.1 ∧ m.2 ≤ m.1 * m.1 ∧ m.1 * m.1 ≤ d * m.2) (hw : (l.map Prod.fst).sum = 1) :
+    0 ≤ linentLoss eps 1 l ∧ linentLoss eps 1 l ≤ 1 - 1 / d := by
+  have e : linentLoss eps 1 l = (l.map fun m => m.1 - m.2 / clampBelow eps m.1).sum := by
+    rw [linentLoss_eq_sum, one_mul, ← hw]
+    exact sum_map_sub Prod.fst _ l
+  rw [e]
+  exact members_range l _ Prod.fst _ (fun m hm => by
+    obtain ⟨a, b, c, e'⟩ := h m hm
+    exact linentMember_range hd a b c e') hw
+
+/-- **the GME loss lies in `[0,1]`**: each `|overlap_α|² ≤ p_α` (theorem `overlap_sq_le`), `Σ p_α = 1` -/
+theorem gmeLoss_range (l : List ((ℝ × ℝ) × ℝ)) (h : ∀ m ∈ l, m.1.1 * m.1.1 + m.1.2 * m.1.2 ≤ m.2)
+    (hw : (l.map Prod.snd).sum = 1) : 0 ≤ gmeLoss (l.map Prod.fst) ∧ gmeLoss (l.map Prod.fst) ≤ 1 := by
+  rw [gmeLoss_eq_sum, List.map_map]
+  have key := members_range l (fun m => m.2 - (m.1.1 * m.1.1 + m.1.2 * m.1.2)) Prod.snd 1 (fun m hm => by
+    have := h m hm
+    constructor
+    · linarith
+    · nlinarith [mul_self_nonneg m.1.1, mul_self_nonneg m.1.2]) hw
+  have e : (l.map fun m => m.2 - (m.1.1 * m.1.1 + m.1.2 * m.1.2)).sum
+      = 1 - (l.map ((fun z : ℝ × ℝ => z.1 * z.1 + z.2 * z.2) ∘ Prod.fst)).sum := by
+    rw [← hw]
+    exact (sum_map_sub Prod.snd _ l).symm
+  rw [← e]; exact key
+
+
 /-! ### non-vacuity -/
 
 example : eof2qubit (1 : ℝ) = Real.log 2 := by
@@ -176,5 +392,18 @@ example : gme2qubit (1 : ℝ) = 1 / 2 := by
 
 /-- the rounded case the guard exists for: `t = 1` -/
 example : ∀ x ∈ eofLogArgs (1 : ℝ), 0 < x := eof_guard_total 1 (by norm_num) le_rfl
+
+/-- a maximally entangled pure state: spectrum `(0,0,0,1)` reads out as concurrence 1 -/
+example : woottersReadout [(0 : ℝ), 0, 0, 1] = 1 := by
+  rw [woottersReadout_pure zero_le_one]; simp
+
+/-- the boundary of the Bell-diagonal family `p = (0,0,½,½)`: concurrence 0 -/
+example : woottersReadout [(0 : ℝ) ^ 2, 0 ^ 2, (1 / 2) ^ 2, (1 / 2) ^ 2] = 0 := by
+  rw [woottersReadout_bellDiag le_rfl le_rfl (by norm_num) (by norm_num) (by norm_num)]; norm_num
+
+/-- the hypotheses of `concLoss_range` are satisfiable (one member of weight 1 with purity ½: a maximally entangled member) -/
+example : 0 ≤ concLoss 0 [((1 : ℝ), 1 / 2)] ∧ concLoss 0 [((1 : ℝ), 1 / 2)] ≤ Real.sqrt (2 * (1 - 1 / (2 : ℕ))) :=
+  concLoss_range 0 _ 2 (by norm_num) (fun m hm => by
+    simp only [List.mem_singleton] at hm; subst hm; norm_num) (by simp)
 
 end Numqi.C13
